@@ -6,13 +6,13 @@ package c06
 // (accepted / rejected), in block order; after every block the monitor's invariant is evaluated.
 
 import (
-	"os"
 	"crypto/ecdsa"
 	"crypto/sha256"
 	"encoding/hex"
 	"encoding/json"
 	"fmt"
 	"math/rand"
+	"os"
 	"sort"
 	"strings"
 	"time"
@@ -53,16 +53,16 @@ type hist struct {
 	users  []*chain.Account
 	chains []string
 	// the harness' own view of what each validator has registered / which private key it holds
-	infos  map[string]map[string]*valsettypes.ExternalChainInfo // valoper -> chain -> info in force
-	keys   map[string]map[string]*ecdsa.PrivateKey              // valoper -> chain -> private key behind the registered PUBLIC KEY (consensus queues)
-	skyKeys map[string]map[string]*ecdsa.PrivateKey             // valoper -> chain -> private key behind the registered ACCOUNT ADDRESS (skyway confirms)
-	alias  map[string]map[string]*alias                         // valoper -> chain -> alias in force
-	keyGen int
-	pend   []pendTx
-	jobs   map[string]string
-	failed bool
-	log    []string
-	lastKA int64
+	infos   map[string]map[string]*valsettypes.ExternalChainInfo // valoper -> chain -> info in force
+	keys    map[string]map[string]*ecdsa.PrivateKey              // valoper -> chain -> private key behind the registered PUBLIC KEY (consensus queues)
+	skyKeys map[string]map[string]*ecdsa.PrivateKey              // valoper -> chain -> private key behind the registered ACCOUNT ADDRESS (skyway confirms)
+	alias   map[string]map[string]*alias                         // valoper -> chain -> alias in force
+	keyGen  int
+	pend    []pendTx
+	jobs    map[string]string
+	failed  bool
+	log     []string
+	lastKA  int64
 }
 
 func (h *hist) note(f string, a ...any) {
@@ -245,6 +245,12 @@ func reason(log string) string {
 	} {
 		if strings.Contains(l, p[0]) {
 			return p[1]
+		}
+	}
+	if i := strings.Index(l, "message index: "); i >= 0 {
+		l = l[i+len("message index: "):]
+		if j := strings.Index(l, ": "); j >= 0 {
+			l = l[j+2:]
 		}
 	}
 	if len(l) > 40 {
